@@ -120,7 +120,9 @@ func ParseRecord(msg []byte) (id int64, text, rest []byte, err error) {
 		return 0, nil, nil, errMalformedRecord
 	}
 	id, err = strconv.ParseInt(string(msg[:i]), 10, 64)
-	if err != nil {
+	if err != nil || strconv.FormatInt(id, 10) != string(msg[:i]) {
+		// Like ParseTree, accept only the spelling that FormatRecord writes
+		// (no sign, no leading zeros).
 		return 0, nil, nil, errMalformedRecord
 	}
 	msg = msg[i+1:]
